@@ -95,6 +95,7 @@ def after_scan(ex, idx, op, obs, C, raw, pre_cache, pre_class):
         return
     ex.cache_owner = "own"
     ex.last_scan_report = C
+    ex.last_scan_tree = O.digest([w.tree_digest(), w.cli_excludes, w.yml_patterns, w.gi_patterns])
     monitor_c07(ex, idx, C, raw, "scan")
 
     # ---- cache reuse accounting (C09) ---------------------------------------
@@ -263,6 +264,17 @@ def after_check(ex, idx, op, obs):
     if S is None:
         ex.probe("c12_no_scan_to_compare")
         return
+    now = O.digest([w.tree_digest(), w.cli_excludes, w.yml_patterns, w.gi_patterns])
+    if now != getattr(ex, "last_scan_tree", None):
+        # the tree changed since the scan: compare with a scan of the tree as it is now
+        if getattr(ex, "c12_ref_key", None) != now:
+            fobs, F, _ = ex.fresh_reference("%s/c12ref" % op["nonce"])
+            ex.c12_ref_key, ex.c12_ref = now, (F if fobs["outcome"] == "ok" else None)
+        S = ex.c12_ref
+        ex.probe("c12_compared_after_edits")
+        if S is None:
+            ex.probe("inconclusive_reference_failed")
+            return
     if not ok_exit:
         ex.add(violation("C12", "check_handles_what_scan_handles", "scan analysed the tree, check %s ended %s %s %s" % (
             op["args"], obs["outcome"], obs.get("exc", obs.get("code", "")), obs.get("msg", "")), idx, obs))
